@@ -142,7 +142,9 @@ example :
 /-- Loading a GFF file in one block gives one record per ID (rows merged), nothing else. -/
 theorem gff_load_one_block (rows : List GffRow) :
     loadGffBlocks [rows] = (mergeRows rows 0 []).1.map gffRec := by
-  simp [loadGffBlocks, loadBlock, foldl_const, List.filter_true]
+  simp only [loadGffBlocks, loadBlock, List.foldl_cons, List.foldl_nil, List.contains_nil, Bool.false_eq_true, if_false,
+    foldl_const, List.nil_append, Bool.not_false]
+  rw [List.filter_eq_self.mpr (fun _ _ => rfl)]
 
 example :
     (loadGffBlocks [[⟨some "c1", "s1", "CDS", "-", "ID=c1", 3, 4⟩, ⟨some "c1", "s1", "CDS", "-", "ID=c1", 8, 10⟩]]).map
